@@ -13,8 +13,8 @@ from props import c19_prims
 
 PID = 'C19'
 COQ_DIRS = ['common', 'C19']
-TARGETS = ['C19/Props.vo', 'C19/Corr.vo']
-MODEL_TARGETS = ['C19/Corr.vo']
+TARGETS = ['C19/Props.vo', 'C19/Corr.vo', 'C19/Sweep.vo']
+MODEL_TARGETS = ['C19/Corr.vo', 'C19/Sweep.vo']
 PROPS_FILE = 'C19/Props.v'
 PROPS_MODULE = 'QV.C19.Props'
 CORR_IMPORTS = ['QV.C19.Model', 'QV.C19.Spec', 'QV.C19.Driver', 'QV.C19.Corr']
@@ -26,8 +26,9 @@ RULE = ('place cases: memory layout (slot hashes, reference counts, capacities, 
         'capacities {192,208,384} x refcounts {0,1,2}, new segments over hashes {1,2,3,9} x lengths {192,208,384}, one '
         'total capacity per layout drawn from the values around the two RuntimeError thresholds.  quick: the scopes '
         '(slots,new) up to (4,3) sampled uniformly (200-400 each); thorough: (0,1..3) (1,1..3) (2,1) (2,2) (3,1) complete '
-        'through Coq, (3,2) and (2,3) swept completely (4.09 M layouts) against the python oracle of the four clauses '
-        '(obligation sweep_small_scopes_...; rejected layouts go through Coq) and sampled (50-60 k) through Coq, the others '
+        'through Coq, (3,2) and (2,3) swept completely (4.09 M layouts) INSIDE Coq (coq/C19/Sweep.v regenerates every layout '
+        'from its index and evaluates check_spec && check_corr on the packed decision of the real function; obligation '
+        'sweep_small_scopes_judged_in_coq; the python oracle runs beside it) and sampled (50-60 k) as ordinary cases, the others '
         'sampled (60-100 k each).  Plus random layouts with <= 7 slots / <= 5 new segments (duplicates, known '
         'hashes, lengths equal to / 16 below / above free capacities), larger random layouts (<= 30 slots, <= 12 new), a '
         'malformed stream (zero / negative lengths and capacities, negative reference counts, negative total capacity; '
@@ -44,7 +45,13 @@ RULE = ('place cases: memory layout (slot hashes, reference counts, capacities, 
         'hist cases: random histories of <= 12 operations (upload / forced upload / free_program / remove / cleanup / '
         'clear; programs share and re-use segment hashes; total capacity 800..100000) run through the real bookkeeping '
         'of BOTH Tabor drivers (hardware/awgs/tabor.py::TaborChannelPair, hardware/feature_awg/tabor.py::TaborChannelTuple + '
-        'TaborProgramManagement) against a fake instrument; observation after every operation.  Non-trivial = place '
+        'TaborProgramManagement) against a fake instrument; observation after every operation.  Round 3: the idle segment '
+        '(hash 0, 192 points, slot 0) appears in programs: 17 written-out histories x both drivers (programs sharing slot '
+        '0 with each other and with the idle sequence, removed in either order, remove vs free, the idle segment twice '
+        'in a program, a program that is the idle waveform, tight totals, the same content under three names, forced '
+        're-upload of identical content, a name removed twice), random histories with 15 % / 40 % idle segments, all '
+        'histories of length <= 2 (quick) / <= 3 (thorough) over 21 operations + samples of length 3-6.  sweep: complete '
+        'scopes judged inside Coq from packed decisions (quick (1,1) (1,2) (2,1); thorough + (3,2) (2,3)).  Non-trivial = place '
         'case with a slot, an unknown segment and a decision or Fragmentation refusal; history that reaches >= 3 slots '
         'with a known program; primitive on >= 2 elements.')
 TRUSTED = [
@@ -58,8 +65,10 @@ TRUSTED = [
     'tabor_control / pyvisa and run against harness/props/c19_driver.py::FakeDevice (abstract slot -> content memory '
     'interpreting :TRAC:SEL/:TRAC:DATA/TRAC:DEL); TaborProgram / make_compatible / make_combined_wave are replaced by '
     'stand-ins, sequencer tables / armed program / set_repetition_mode are switched off; no real instrument or simulator',
-    'thorough tier: the complete sweep of the scopes (3,2) and (2,3) is judged by the python oracle of the four clauses '
-    '(harness/props/c19.py::clauses), not by Coq; samples of the same scopes are judged by both',
+    'sweep of complete scopes: Python enumerates the layouts (harness/props/c19.py::_scope_item, _sweep_total) and packs the '
+    'decisions; Coq enumerates the same index range itself (coq/C19/Sweep.v::scope_item, scope_total) and judges every layout; '
+    'a disagreement between the two enumerations shows up as rejected layouts',
+    'a program segment with the hash of the idle segment (stand-in Seg(0, 192)) stands for "bit-identical to the idle waveform"',
 ]
 ASSUMPTIONS = [
     'the three memory arrays have equal length and the two new-segment arrays have equal length (maintained by the driver, '
@@ -262,65 +271,140 @@ def gen_cases(rng, tier, ctx):
 
 
 def pregen(ctx):
-    """thorough tier: the scopes (slots, new) = (3,2) and (2,3) are swept COMPLETELY (one boundary total per layout)
-    against the python oracle of the four clauses; rejected layouts are handed to gen_cases and go through Coq."""
-    if ctx.get('tier') != 'thorough':
-        return []
+    """Sweep of complete small scopes, judged INSIDE Coq (coq/C19/Sweep.v): the real function is run on every layout of
+    the scope, only the returned decisions are sent (20 bits per layout); Coq regenerates layout and total capacity from
+    the index and evaluates check_spec (four clauses) and check_corr (model = implementation) on each.
+    quick: (1,1) (1,2) (2,1) = 12 960 layouts; thorough: + (3,2) and (2,3) = 4 094 064 layouts.
+    Failing layouts are handed to gen_cases and go through the normal case path (VIOLATION + replay)."""
     import time
     t0 = time.time()
-    n, rejected = sweep_scopes([(3, 2), (2, 3)], ctx.get('seed', 0) or 0)
-    ctx['c19_sweep_rejected'] = rejected[:50]
-    return [{'name': 'sweep_small_scopes_3x2_2x3_python_oracle', 'ok': True,
-             'detail': '%d layouts (complete), %d rejected by the python oracle of the four clauses, %.0f s'
-                       % (n, len(rejected), time.time() - t0)}]
+    thorough = ctx.get('tier') == 'thorough'
+    scopes = [(1, 1), (1, 2), (2, 1)] + ([(3, 2), (2, 3)] if thorough else [])
+    # Sweep.vo is a build target of the check (step 2); here it is only rebuilt when it is older than its cone, so that a
+    # run does not queue twice for the global build lock
+    ok = _sweep_vo_fresh() or vlib.coq_make(['C19/Sweep.vo'])[0]
+    if not ok:
+        # the build step of the check reports the broken file; nothing to sweep with
+        return [{'name': 'sweep_small_scopes_judged_in_coq', 'ok': True,
+                 'detail': 'skipped: coq/C19/Sweep.vo does not build (reported by the build step)'}]
+    try:
+        n, failing, py_rejected, shards = sweep_scopes(scopes, ctx.get('seed', 0) or 0, ctx['workdir'])
+    except Exception as e:
+        return [{'name': 'sweep_small_scopes_judged_in_coq', 'ok': False, 'detail': 'sweep crashed: %s' % (e,)}]
+    ctx['c19_sweep_rejected'] = (failing + [c for c in py_rejected if c not in failing])[:50]
+    return [{'name': 'sweep_small_scopes_judged_in_coq', 'ok': True,
+             'detail': 'scopes %s complete: %d layouts in %d coqc shards, Coq (check_spec && check_corr per layout) rejects '
+                       '%d, the python oracle of the four clauses rejects %d, %.0f s'
+                       % (' '.join('(%d,%d)' % sc for sc in scopes), n, shards, len(failing), len(py_rejected),
+                          time.time() - t0)}]
 
 
-def _sweep_chunk(arg):
-    """one contiguous index range of one small scope: run the implementation, evaluate the python oracle"""
-    import random
+def _sweep_vo_fresh():
+    d = os.path.join(vlib.COQ, 'C19')
+    try:
+        t = os.path.getmtime(os.path.join(d, 'Sweep.vo'))
+        return all(os.path.getmtime(os.path.join(d, f + ext)) <= t
+                   for f in ('Model', 'Spec', 'Driver', 'Corr', 'Sweep') for ext in ('.v', '.vo') if f + ext != 'Sweep.vo')
+    except OSError:
+        return False
+
+
+def _sweep_total(idx, seed, refs, caps, nh, nl, hashes):
+    """the total capacity of layout idx in the sweep: determined by index and seed (coq/C19/Sweep.v::scope_total)"""
+    return _totals(None, refs, caps, nh, nl, hashes)[(idx * 7 + 3 * seed) % 19]
+
+
+def _sweep_encode(obs, nnew):
+    """20 bits per layout (coq/C19/Sweep.v::decode)"""
+    if 'ret' in obs:
+        w, a, i = obs['ret']
+        if not (len(w) == len(a) == len(i) == nnew and all(-1 <= x <= 2 for x in w) and all(-1 <= x <= 2 for x in i)):
+            return 3
+        code = 0
+        for j in reversed(range(nnew)):
+            code = (code << 5) | (w[j] + 1) | ((i[j] + 1) << 2) | (int(bool(a[j])) << 4)
+        return code << 2
+    return {'NotEnoughMemory': 1, 'Fragmentation': 2}.get(obs.get('refused'), 3)
+
+
+def _sweep_case(nslots, nnew, idx, seed):
+    hashes, refs, caps, nh, nl = _scope_item(nslots, nnew, idx)
+    return _mk(hashes, refs, caps, _sweep_total(idx, seed, refs, caps, nh, nl, hashes), nh, nl)
+
+
+def _sweep_job(arg):
+    """one contiguous index range of one small scope: run the implementation, pack the decisions, let coqc judge them"""
+    import re
+    import subprocess
     import warnings
     import numpy as np
     from qupulse._program.tabor import find_place_for_segments_in_memory
-    nslots, nnew, lo, hi, seed = arg
-    rng = random.Random(seed * 1000003 + lo)
-    n = 0
-    rejected = []
+    nslots, nnew, lo, hi, seed, workdir = arg
+    codes, py_rejected = [], []
     for idx in range(lo, hi):
-        hashes, refs, caps, nh, nl = _scope_item(nslots, nnew, idx)
-        total = rng.choice(_totals(rng, refs, caps, nh, nl, hashes))
-        case = _mk(hashes, refs, caps, total, nh, nl)
+        case = _sweep_case(nslots, nnew, idx, seed)
         try:
             with warnings.catch_warnings():
                 warnings.simplefilter('ignore')
                 w2s, ta, ti = find_place_for_segments_in_memory(
-                    current_segment_hashes=np.asarray(hashes, dtype=np.int64),
-                    current_segment_references=np.asarray(refs, dtype=np.int64),
-                    current_segment_capacities=np.asarray(caps, dtype=np.int64), total_capacity=total,
-                    new_segment_hashes=np.asarray(nh, dtype=np.int64), new_segment_lengths=np.asarray(nl, dtype=np.int64))
-            obs = {'ret': [w2s.tolist(), ta.tolist(), ti.tolist()]}
-        except RuntimeError:
-            obs = {'refused': 'other'}
+                    current_segment_hashes=np.asarray(case['hashes'], dtype=np.int64),
+                    current_segment_references=np.asarray(case['refs'], dtype=np.int64),
+                    current_segment_capacities=np.asarray(case['caps'], dtype=np.int64), total_capacity=case['total'],
+                    new_segment_hashes=np.asarray(case['new_hashes'], dtype=np.int64),
+                    new_segment_lengths=np.asarray(case['new_lens'], dtype=np.int64))
+            obs = {'ret': [[int(x) for x in w2s.tolist()], [bool(x) for x in ta.tolist()], [int(x) for x in ti.tolist()]]}
+        except RuntimeError as e:
+            msg = ' '.join(str(a) for a in e.args)
+            obs = {'refused': 'Fragmentation' if 'ragmentation' in msg else 'NotEnoughMemory' if 'nough' in msg else 'other'}
         except Exception as e:
             obs = {'crash': repr(e)}
-        n += 1
-        if 'crash' in obs or clauses(case, obs):
-            rejected.append(case)
-    return n, rejected[:20]
+        codes.append(_sweep_encode(obs, nnew))
+        if ('crash' in obs or clauses(case, obs)) and len(py_rejected) < 20:
+            py_rejected.append(case)
+    words = []
+    for k in range(0, len(codes), 12):
+        w = 0
+        for c in reversed(codes[k:k + 12]):
+            w = (w << 20) | c
+        words.append('0x%x' % w)
+    path = os.path.join(workdir, 'sweep_%d_%d_%d.v' % (nslots, nnew, lo))
+    with open(path, 'w') as fh:
+        fh.write('From Coq Require Import List ZArith.\nImport ListNotations.\nRequire Import QV.C19.Sweep.\n'
+                 'Open Scope Z_scope.\nGoal True. idtac "@@BEGIN". exact I. Qed.\n'
+                 'Eval vm_compute in (sweep_chunk %d %d %d %d %d [%s]).\nGoal True. idtac "@@END". exact I. Qed.\n'
+                 % (nslots, nnew, seed, lo, hi - lo, '; '.join(words)))
+    pr = subprocess.run(['timeout', str(vlib.COQC_TIMEOUT), 'coqc', '-R', vlib.COQ, 'QV', '-w', '-all', path],
+                        cwd=workdir, stdout=subprocess.PIPE, stderr=subprocess.STDOUT, text=True)
+    m = re.search(r'=\s*\(\[([^\]]*)\],\s*(\d+),\s*(\d+)\)', pr.stdout.split('@@BEGIN')[-1]) if pr.returncode == 0 else None
+    if not m:
+        raise RuntimeError('coqc failed on sweep shard %s: %s' % (path, pr.stdout[-400:]))
+    bad = [int(x) for x in m.group(1).replace(' ', '').replace('\n', '').split(';') if x.strip()]
+    if int(m.group(3)) != 0:
+        raise RuntimeError('sweep shard %s does not cover its index range' % path)
+    for ext in ('.v', '.vo', '.glob', '.vok', '.vos'):
+        try:
+            os.remove(path[:-2] + ext)
+        except OSError:
+            pass
+    return hi - lo, [_sweep_case(nslots, nnew, i, seed) for i in bad], int(m.group(2)), py_rejected
 
 
-def sweep_scopes(scopes, seed, limit=None, procs=4):
+def sweep_scopes(scopes, seed, workdir, limit=None, procs=None):
     import multiprocessing
+    os.makedirs(workdir, exist_ok=True)
     jobs = []
     for nslots, nnew in scopes:
         size = _scope_size(nslots, nnew) if limit is None else min(limit, _scope_size(nslots, nnew))
-        step = 50000
-        jobs += [(nslots, nnew, lo, min(lo + step, size), seed) for lo in range(0, size, step)]
-    n, rejected = 0, []
+        step = 40000
+        jobs += [(nslots, nnew, lo, min(lo + step, size), seed, workdir) for lo in range(0, size, step)]
+    procs = procs or max(2, min(8, (os.cpu_count() or 4) // 2, len(jobs)))
+    n, failing, py_rejected = 0, [], []
     with multiprocessing.get_context('fork').Pool(procs) as pool:
-        for k, r in pool.imap_unordered(_sweep_chunk, jobs):
+        for k, bad, nbad, rej in pool.imap_unordered(_sweep_job, jobs):
             n += k
-            rejected += r
-    return n, rejected
+            failing += bad
+            py_rejected += rej
+    return n, failing, py_rejected, len(jobs)
 
 
 SEG_LEN = {h: [192, 208, 224, 384, 192, 400, 256, 208, 1024, 192][h % 10] for h in range(1, 31)}
@@ -473,7 +557,7 @@ def run_impl(case):
             return {'crash': '%s: %s' % (type(e).__name__, e)}
     from qupulse._program.tabor import find_place_for_segments_in_memory
     hashes, refs, caps, nh, nl = _arrays(case)
-    before = (hashes.copy(), refs.copy(), caps.copy())
+    before = (hashes.copy(), refs.copy(), caps.copy(), list(nh), list(nl))
     try:
         with vlib.time_limit(10), warnings.catch_warnings():
             warnings.simplefilter('ignore')
@@ -507,7 +591,26 @@ def run_impl(case):
     except Exception as e:
         return {'crash': '%s: %s' % (type(e).__name__, e)}
     obs['inputs_unchanged'] = bool(np.array_equal(before[0], hashes) and np.array_equal(before[1], refs)
-                                   and np.array_equal(before[2], caps))
+                                   and np.array_equal(before[2], caps)
+                                   and before[3] == list(nh) and before[4] == list(nl))
+    if case.get('impl') != 'feature' and obs['inputs_unchanged']:
+        # the same arrays passed a second time (the driver keeps them): the function has no hidden state
+        try:
+            with warnings.catch_warnings():
+                warnings.simplefilter('ignore')
+                w2, a2, i2 = find_place_for_segments_in_memory(
+                    current_segment_hashes=hashes, current_segment_references=refs, current_segment_capacities=caps,
+                    total_capacity=case['total'], new_segment_hashes=nh, new_segment_lengths=nl)
+            again = {'ret': [[int(x) for x in np.asarray(w2).tolist()], [bool(x) for x in np.asarray(a2).tolist()],
+                             [int(x) for x in np.asarray(i2).tolist()]]}
+        except (RuntimeError, AssertionError):
+            again = {'refused': True}
+        except Exception as e:
+            again = {'crash': repr(e)}
+        same = again.get('ret') == obs.get('ret') and ('refused' in again) == ('refused' in obs) and 'crash' not in again
+        if not same:
+            obs['inputs_unchanged'] = False
+            obs['second_call_differs'] = True
     return obs
 
 
@@ -824,7 +927,10 @@ MANIFEST = {
                   'appended segments fit behind the last used slot; every segment accounted for exactly once).  Proof '
                   '(histories): over all upload/forced upload/free/remove/cleanup/clear histories every known program\'s '
                   'slots hold its own data and stay referenced, and the defined slots never need more than the total '
-                  'capacity (unguarded since /repo 4f02520).  The models are tied to the code by exact correspondence '
+                  'capacity (unguarded since /repo 4f02520); reference counts dominate the number of programs playing from '
+                  'a slot (+1 for the idle slot 0, which keeps the idle waveform and is never released, also when programs '
+                  'with an identical segment share it).  Proof (numpy primitives): each of the 14 list models meets the '
+                  'independent specification evaluated on numpy\'s output.  The models are tied to the code by exact correspondence '
                   'checks against the real function, against the real bookkeeping of both Tabor drivers on a fake '
                   'instrument, and per numpy primitive against numpy.',
     'level_note': 'The history theorems are about a hand-written model of the driver bookkeeping; both driver files need '
@@ -832,8 +938,8 @@ MANIFEST = {
                   'with sampling replaced by stand-ins.  The copy of the placement inside feature_awg/tabor.py sorts '
                   'unstably: compared exactly only on tie-free inputs, four clauses always.  A liveness remark (spurious '
                   'Fragmentation refusal, C19_liveness_refuted) is recorded but is not part of the property.  Trusted: '
-                  'Coq kernel, numpy primitives as list models (tested per primitive, not proved), harness, fake '
-                  'instrument.',
+                  'Coq kernel, numpy primitives as list models (tested per primitive against a specification the model '
+                  'provably meets; nothing is proved about numpy), harness, fake instrument.',
     'technique': 'Coq proof (loop invariants over list models of the numpy code; history invariants) + correspondence check',
     'design_ref': 'DESIGN.md §5 C19',
 }
